@@ -38,6 +38,9 @@ type HTTPReq struct {
 	RawHead string // if set, sent verbatim instead of the generated head
 	Chunked bool
 	Auto    bool // transparent link (not journaled, no tape)
+	// HalfClose: the client shuts down the sending half of its connection once the request is
+	// written (legal HTTP/1.x) and goes on waiting for the response
+	HalfClose bool
 }
 
 func (r *HTTPReq) Bytes() []byte {
@@ -222,6 +225,9 @@ func (w *World) Start(r *HTTPReq) *Pending {
 	e.Opaque, e.Peer.Opaque = true, true
 	e.OnEOF = func(rst bool) { p.Res.EOF, p.Res.RST = true, rst }
 	e.Send(r.Bytes())
+	if r.HalfClose {
+		e.ShutWrite()
+	}
 	return p
 }
 
